@@ -6,6 +6,7 @@ CONSTANTS
   PatchKinds = {"plain2", "ret"}
   FnLayouts = {"none", "one", "split", "tail"}
   EndSyms = {FALSE}
+  NoSyms = {FALSE}
   AnnModes = {"none"}
   WithProxyDel = TRUE
   CfiLayouts = {"none"}
